@@ -169,15 +169,195 @@ def prog2(tk: int, op1: int, op2: int, vs: int, i: int, x: int, y: int, z: int, 
     return finish(True, True)
 
 
+JSON_PARTS = [(f, w) for f in hlib.JSON_FAMILIES for w in WHICH]
+CTX_FAULT = ["plain", "write-concern", "threading-off"]
+
+
+def faulty(tk: int, opi: int, k: int, cx: int, x: int, y: int, z: int, v1: int) -> bool:
+    """An I/O error at any file-system step of the call: if the mutator nevertheless
+    RETURNS, the mutation must be in the file (a swallowed error is a silent loss).
+    post: _
+    """
+    env = get_env().reset()
+    fam, which = JSON_PARTS[hlib.PART % len(JSON_PARTS)]
+    depth = (hlib.PART // len(JSON_PARTS)) % 2
+    tkind = pick(WHICH, tk)
+    ctx = pick(CTX_FAULT, cx)
+    if tkind is None or ctx is None or (depth == 0 and tkind != which):
+        return finish(False, True)
+    op = pick(ops.mutators(tkind), opi)
+    k = pick([0, 1, 2, 3, 4, 5, 6, 7], k)
+    if op is None or k is None:
+        return finish(False, True)
+    cls = fam.cls(which)
+    if ctx == "threading-off":
+        cls.disable_multithreading()
+    doc, path = build(which, depth, tkind, Leaves(x, y, z))
+    ref = copy_tree(doc)
+    fam.write(env, "r", doc)
+    root = fam.make(env, which, "r", **({"write_concern": True} if ctx == "write-concern" else {}))
+    target = root
+    for kk in path:
+        target = target[kk]
+    a_lib = ops.A(v=v1, w=v1, i=0, j=1)
+    a_ref = ops.A(v=v1, w=v1, i=0, j=1)
+    env.fs.fault_at = env.fs.ops + k
+    r_lib = run_op(op, target, a_lib)
+    hit = env.fs.fault_at < env.fs.ops
+    env.fs.fault_at = None
+    if r_lib[0] == "exc":
+        return finish(False, True)  # the call did not return
+    r_ref = run_ref(op, at(ref, path), a_ref)
+    if r_ref[0] == "exc":
+        return finish(False, True)
+    case(cls.__name__, f"depth{depth}", tkind, op.name, ctx, k if hit else "no-fault")
+    want = plain(ref)
+    got = fam.read(env, "r")
+    if got is MISSING or not is_plain(got) or not same_tree(got, want):
+        return finish(True, fail(lambda: f"{cls.__name__} ({ctx}) depth {depth}: {op.name} returned normally although file-system operation #{k} of the call raised OSError; file holds {got!r}, reference {want!r} (fs log {env.fs.log[-6:]!r})"))
+    leftovers = [n for n in env.listdir() if n.startswith("._")]
+    return finish(True, True)
+
+
+SRC = ["own-child", "other-collection-child", "other-collection-root", "other-family-child"]
+PUT = {"dict": ["setitem_new", "setitem_replace", "update_map", "setdefault_new", "reset"], "list": ["append", "setitem", "insert", "extend", "iadd", "reset"]}
+
+
+def synced_arg(si: int, pi: int, sk: int, x: int, y: int, v: int) -> bool:
+    """The stored value is itself a synced node (taken from this or another collection):
+    the destination must hold an independent copy that writes through to ITS backend.
+    post: _
+    """
+    env = get_env().reset()
+    fam, which = PARTS[hlib.PART % len(PARTS)]
+    src = pick(SRC, si)
+    put = pick(PUT[which], pi)
+    skind = pick(WHICH, sk)
+    if src is None or put is None or skind is None:
+        return finish(False, True)
+    cls = fam.cls(which)
+    S = {"p": x, "n": {"q": y}} if skind == "dict" else [x, [y]]
+    doc = {"a": copy_tree(S), "b": 1} if which == "dict" else [copy_tree(S), 1]
+    ref = copy_tree(doc)
+    fam.write(env, "r", doc)
+    root = fam.make(env, which, "r")
+    sfam = fam
+    if src == "other-family-child":
+        sfam = hlib.FAM["JSON"] if fam.name != "JSON" else hlib.FAM["Redis"]
+    sdoc = {"a": copy_tree(S), "z": 0} if which == "dict" else [copy_tree(S), 0]
+    sref = copy_tree(sdoc)
+    if src != "own-child":
+        sfam.write(env, "s", sdoc)
+        sroot = sfam.make(env, which, "s")
+    pos = "a" if which == "dict" else 0
+    if src == "own-child":
+        node, node_plain = root[pos], copy_tree(S)
+    elif src == "other-collection-root":
+        if skind != which:
+            return finish(False, True)
+        node, node_plain = sroot, copy_tree(sdoc)
+    else:
+        node, node_plain = sroot[pos], copy_tree(S)
+    try:
+        if put == "setitem_new":
+            root["n"] = node
+            ref["n"] = node_plain
+            where = "n"
+        elif put == "setitem_replace":
+            root["b"] = node
+            ref["b"] = node_plain
+            where = "b"
+        elif put == "update_map":
+            root.update({"n": node})
+            ref["n"] = node_plain
+            where = "n"
+        elif put == "setdefault_new":
+            root.setdefault("n", node)
+            ref["n"] = node_plain
+            where = "n"
+        elif put == "reset" and which == "dict":
+            root.reset({"n": node, "b": 2})
+            ref = {"n": node_plain, "b": 2}
+            where = "n"
+        elif put == "append":
+            root.append(node)
+            ref.append(node_plain)
+            where = 2
+        elif put == "setitem":
+            root[1] = node
+            ref[1] = node_plain
+            where = 1
+        elif put == "insert":
+            root.insert(1, node)
+            ref.insert(1, node_plain)
+            where = 1
+        elif put == "extend":
+            root.extend([node])
+            ref.extend([node_plain])
+            where = 2
+        elif put == "iadd":
+            root += [node]
+            ref += [node_plain]
+            where = 2
+        else:
+            root.reset([node, 2])
+            ref = [node_plain, 2]
+            where = 0
+    except hlib.Crash:
+        raise
+    except Exception as e:
+        return finish(True, fail(lambda: f"{cls.__name__}: {put} of a synced {src} raised {e!r}"))
+    case(cls.__name__, src, put, skind)
+    label = f"{cls.__name__}: {put} of a synced node ({src}, {skind})"
+    got = fam.read(env, "r")
+    if got is MISSING or not is_plain(got) or not same_tree(got, plain(ref)):
+        return finish(True, fail(lambda: f"{label}: resource {got!r}, reference {ref!r}"))
+    # mutate THROUGH the destination, at depth: must land in the destination's backend only
+    dest = root[where]
+    dref = ref[where]
+    if src == "other-collection-root":
+        dest, dref = dest[pos], dref[pos]
+    try:
+        if skind == "dict":
+            dest["n"]["q2"] = v
+            dref["n"]["q2"] = v
+            dest["top"] = v
+            dref["top"] = v
+        else:
+            dest[1].append(v)
+            dref[1].append(v)
+            dest.append(v)
+            dref.append(v)
+    except hlib.Crash:
+        raise
+    except Exception as e:
+        return finish(True, fail(lambda: f"{label}: mutation through the destination raised {e!r}"))
+    got = fam.read(env, "r")
+    if got is MISSING or not is_plain(got) or not same_tree(got, plain(ref)):
+        return finish(True, fail(lambda: f"{label}, then a write through the destination: destination backend holds {got!r}, reference {ref!r}"))
+    if src not in ("own-child",):
+        sgot = sfam.read(env, "s")
+        if sgot is MISSING or not same_tree(sgot, plain(sref)):
+            return finish(True, fail(lambda: f"{label}, then a write through the destination: the SOURCE backend changed to {sgot!r}, was {sref!r}"))
+    mem = root()
+    if not same_tree(plain(mem), plain(ref)):
+        return finish(True, fail(lambda: f"{label}: root() {mem!r}, reference {ref!r}"))
+    return finish(True, True)
+
+
 def plan(tier):
     if tier == "quick":
         return [
             {"fn": "step", "nparts": 3 * len(PARTS), "timeout": 300},
             {"fn": "prog2", "nparts": 16, "timeout": 300},
+            {"fn": "faulty", "nparts": 2 * len(JSON_PARTS), "timeout": 300},
+            {"fn": "synced_arg", "nparts": len(PARTS), "timeout": 300},
         ]
     return [
         {"fn": "step", "nparts": 4 * len(PARTS), "timeout": 1500},
         {"fn": "prog2", "nparts": 4 * 2 * 8, "timeout": 1500},
+        {"fn": "faulty", "nparts": 2 * len(JSON_PARTS), "timeout": 1500},
+        {"fn": "synced_arg", "nparts": len(PARTS), "timeout": 1500},
     ]
 
 
@@ -188,6 +368,14 @@ def smoke(tier):
         for tk in (0, 1):
             for opi in (0, 4, 9, 16):
                 out.append(("step", (0, tk, opi, 1, 1, 0, 1, 2, 3, 5, 6), part, n))
+    for part in range(len(PARTS)):
+        for si in range(4):
+            for pi in range(6):
+                out.append(("synced_arg", (si, pi, (si + pi) % 2, 1, 2, 3), part, len(PARTS)))
+    nf = 2 * len(JSON_PARTS)
+    for part in range(nf):
+        for k in range(6):
+            out.append(("faulty", (part % 2, (k * 3 + part) % 17, k, k % 3, 1, 2, 3, 4), part, nf))
     out.append(("prog2", (0, 1, 8, 1, 0, 1, 2, 3, 5, 6), 0, 16))
     out.append(("prog2", (0, 2, 10, 0, 1, 1, 2, 3, 7, 4), 7, 16))
     return out
